@@ -1,4 +1,4 @@
-import DmlcModel.Split.Model
+import DmlcModel.Split.Files
 import Driver.Proto
 /-! line-protocol driver of the `Split` model (protocol: see harness/h_split.cc) -/
 namespace Driver.Split
@@ -6,6 +6,7 @@ open DmlcModel DmlcModel.Split
 
 structure DSt where
   files : List Bytes := []
+  fs : FileSys := []
   isText : Bool := true
   obj : Option St := none
   poisoned : Bool := false
@@ -41,6 +42,28 @@ def showList (tag : String) (bs : List Bytes) : String :=
 
 def setAt (l : List Bytes) (i : Nat) (v : Bytes) : Option (List Bytes) :=
   if i < l.length then some (l.set i v) else if i = l.length then some (l ++ [v]) else none
+
+/-- `std::string::operator<` (bytewise lexicographic) -/
+def bytesLt : Bytes → Bytes → Bool
+  | [], [] => false
+  | [], _ :: _ => true
+  | _ :: _, [] => false
+  | a :: x, b :: y => a < b || (a == b && bytesLt x y)
+
+/-- `MemFS::Put`: insert / replace in key order -/
+def fsPut : FileSys → Name → Bytes → FileSys
+  | [], nm, c => [(nm, c)]
+  | (k, v) :: rest, nm, c =>
+    if k == nm then (nm, c) :: rest
+    else if bytesLt nm k then (nm, c) :: (k, v) :: rest
+    else (k, v) :: fsPut rest nm c
+
+/-- the name `/m/f<i>` the harness gives to file `i` of the indexed table -/
+def tableName (i : Nat) : Name := ("/m/f" ++ toString i).toUTF8.toList
+
+def showInfos (infos : List Info) : String :=
+  "files" ++ String.join (infos.map fun i => s!" {hexOrDash i.name}:{i.size}") ++
+  " offs" ++ String.join ((initOffsets 0 infos).map fun o => s!" {o}")
 
 def parseHexes : List String → Option (List Bytes)
   | [] => some []
@@ -80,7 +103,7 @@ def step (d : DSt) : List String → DSt × String
     match i.toNat?, bytesOfHex h with
     | some i, some b =>
       match setAt d.files i b with
-      | some fs => ({ d with files := fs }, "ok")
+      | some fs => ({ d with files := fs, fs := fsPut d.fs (tableName i) b }, "ok")
       | none => (d, "bad-op")
     | _, _ => (d, "bad-op")
   | "recfile" :: i :: hs =>
@@ -88,9 +111,31 @@ def step (d : DSt) : List String → DSt × String
     | some i, some recs =>
       let img := RecordIO.writeAll recs
       match setAt d.files i img with
-      | some fs => ({ d with files := fs }, "file " ++ hexOrDash img)
+      | some fs => ({ d with files := fs, fs := fsPut d.fs (tableName i) img }, "file " ++ hexOrDash img)
       | none => (d, "bad-op")
     | _, _ => (d, "bad-op")
+  | ["put", nm, h] =>
+    match bytesOfHex nm, bytesOfHex h with
+    | some nm, some b => ({ d with fs := fsPut d.fs nm b }, "ok")
+    | _, _ => (d, "bad-op")
+  | "putrec" :: nm :: hs =>
+    match bytesOfHex nm, parseHexes hs with
+    | some nm, some recs =>
+      let img := RecordIO.writeAll recs
+      ({ d with fs := fsPut d.fs nm img }, "file " ++ hexOrDash img)
+    | _, _ => (d, "bad-op")
+  | ["newuri", fmt, uri, rc, k, n, w, st, defw] =>
+    match bytesOfHex uri, k.toNat?, n.toNat?, w.toNat?, defw.toNat? with
+    | some uri, some k, some n, some w, some defw =>
+      if n = 0 ∨ w = 0 then (d, "bad-op")
+      else
+        let isText := fmt = "text"
+        let d := { d with isText := isText, obj := none, poisoned := false }
+        -- LineSplitter never recurses; the regex branch is run with the literal matcher
+        match mkStUri (fmtOf isText) (fun p c => p == c) d.fs uri (rc = "1" && !isText) k n w (st = "1") defw with
+        | .error e => (d, showErr e)
+        | .ok (infos, s) => ({ d with obj := some s }, "ok " ++ showInfos infos ++ " | " ++ showState s)
+    | _, _, _, _, _ => (d, "bad-op")
   | ["new", fmt, k, n, w, st, defw] =>
     match k.toNat?, n.toNat?, w.toNat?, defw.toNat? with
     | some k, some n, some w, some defw =>
